@@ -240,10 +240,14 @@ class HashSeedEngine(Engine):
                            for p in protos):
                     protos.append(candidate)
             start = length - rng.choice([10, 14])
+            # (half of the time all of one product and mostly with the same neighbourhood over the origin: then only
+            # the cores tell them apart)
+            scene_product = rng.choice(products) if rng.random() < 0.5 else None
             for size in rng.sample([3, 5, 7, 10], rng.randint(1, 3)):
                 core = [[start, start + size]]
-                candidate = {"core": core, "loc": rng.choice([core, [[start - 30, length], [0, 26]]]),
-                             "product": rng.choice(products), "cutoff": 5}
+                over = [[start - 30, length], [0, 26]]
+                candidate = {"core": core, "loc": rng.choice([core, over, over] if scene_product else [core, over]),
+                             "product": scene_product or rng.choice(products), "cutoff": 5}
                 # the same rule about exact duplicates applies here
                 if not any(p["loc"] == candidate["loc"] and p["core"] == core and p["product"] == candidate["product"]
                            for p in protos):
@@ -636,6 +640,13 @@ class HashSeedEngine(Engine):
             if own:
                 gene = rng.choice(own)["parts"][0]
                 sideload_cli += ["--sideload-simple", f"{record['id']}:{max(0, gene[0] - 50)}-{min(len(record['seq']), gene[1] + 50)}"]
+        # hmmsearch never reports the same domain (gene, profile, coordinates) twice; two draws of the same profile
+        # pair on the same gene could otherwise produce such interchangeable duplicates
+        unique_hits: List[Dict[str, Any]] = []
+        for hit in hits:
+            if not any(all(other[key] == hit[key] for key in ("cds", "profile", "start", "end")) for other in unique_hits):
+                unique_hits.append(hit)
+        hits = unique_hits
         return {"records": records, "hits": hits, "sideload_cli": sideload_cli,
                 "domain_hits": {"nrpspksdomains.hmm": domain_hits, "ksdomains.hmm": subtype_hits,
                                 "Pfam-A.hmm": pfam_hits, "t2pks.hmm": t2pks_hits, "all_profiles.hmm": terpene_hits,
